@@ -179,6 +179,7 @@ pub fn sc_transport_sched(idx: u64, seed: u64, _t: bool) -> RunOut {
             tr_hist: 40,
             stateless: 80,
             epilogue: true,
+            wild_buffers: true,
             ..Profile::default()
         },
         mode: "plain",
@@ -189,6 +190,7 @@ pub fn sc_transport_sched(idx: u64, seed: u64, _t: bool) -> RunOut {
 
 fn fail_retry_profile() -> Profile {
     Profile {
+        wild_buffers: true,
         hs_fail_write: 400,
         hs_fail_read: 400,
         hs_misuse: 80,
